@@ -122,12 +122,15 @@ Array<String> TextFile::lines()
 
 String TextFile::text()
 {
+	if (_file) // already open, possibly for writing: read through a separate handle, this one keeps its position
+	{
+		flush();
+		return TextFile(_path).text();
+	}
 	_info.clear(); // the file may have changed since its size was cached
 	int n = (int)(size() & 0x7fffffff); // truncate
 	String text;
-	if (_file)
-		seek(0); // already open: the text starts at the beginning of the file
-	else if (!open(READ)) {
+	if (!open(READ)) {
 		return text;
 	}
 	byte head[8];
